@@ -278,6 +278,18 @@ func arrStore(n *ArrNode, idx, val *Term) *ArrNode {
 	return &ArrNode{kind: ArrStore, elemW: n.elemW, prev: n, idx: idx, val: val, depth: n.depth + 1}
 }
 
+func (r *Run) arrCopyM(dst *ArrNode, dOff *Term, src *ArrNode, sOff, n *Term) *ArrNode {
+	// contiguous continuation of the previous copy from the same source: one copy
+	// (io.ReadFull filling a buffer with several short reads)
+	if dst.kind == ArrCopy && dst.src == src {
+		c := r.ctx
+		if dOff == c.Add(dst.dOff, dst.n) && sOff == c.Add(dst.sOff, dst.n) {
+			return &ArrNode{kind: ArrCopy, elemW: dst.elemW, prev: dst.prev, src: src, dOff: dst.dOff, sOff: dst.sOff, n: c.Add(dst.n, n), depth: dst.depth}
+		}
+	}
+	return arrCopy(dst, dOff, src, sOff, n)
+}
+
 func arrCopy(dst *ArrNode, dOff *Term, src *ArrNode, sOff, n *Term) *ArrNode {
 	return &ArrNode{kind: ArrCopy, elemW: dst.elemW, prev: dst, src: src, dOff: dOff, sOff: sOff, n: n, depth: dst.depth + 1}
 }
